@@ -5,7 +5,7 @@
    A data frame is its list of column names and its list of partitions (each a list of rows); the
    operators transcribe how the implementation treats the partitions:
      select, filter, drop, withColumnRenamed, toDF     partition-wise (mapPartitionsWithIndex / map)
-     union, unionByName                               the partitions of both sides, one after the other
+     union, unionByName                               Context.union: all rows of both sides, re-sliced
      sort                                             one pass per key, LAST key first; each pass is
                                                       sorted(collect(), key, reverse) re-sliced
      distinct                                         set(toLocalIterator()) re-sliced
@@ -107,23 +107,8 @@ Definition withColumnRenamed (old new : name) (d : df) : option df :=
 Definition toDF (ns : list name) (d : df) : option df :=
   if Nat.eqb (length ns) (length (cols d)) then Some (mkdf ns (parts d)) else None.
 
-(* ---------- union, unionByName *)
-Definition union (d other : df) : option df :=
-  if Nat.eqb (length (cols d)) (length (cols other))
-  then Some (mkdf (cols d) (parts d ++ parts other))
-  else None.
-
 Definition reorder_row (from to : list name) (r : row) : option row :=
   map_opt (lookup from r) to.
-
-Definition unionByName (d other : df) : option df :=
-  if nodup_names (cols d) && nodup_names (cols other) && Nat.eqb (length (cols d)) (length (cols other))
-  then
-    match map_opt (map_opt (reorder_row (cols other) (cols d))) (parts other) with
-    | Some ps => Some (mkdf (cols d) (parts d ++ ps))
-    | None => None
-    end
-  else None.
 
 (* ---------- Python equality of cells and rows (tuple ==): numeric tower, -0.0 == 0.0 *)
 Definition py_eqb (a b : sval) : bool :=
@@ -253,6 +238,21 @@ Definition dropDuplicates (ns : list name) (d : df) : option df :=
   end.
 
 Definition limit (n : nat) (d : df) : df := mkdf (cols d) (split 0 (firstn n (collect d))).
+
+(* ---------- union, unionByName: rdd.union is Context.union = parallelize(all rows of both sides) *)
+Definition union (d other : df) : option df :=
+  if Nat.eqb (length (cols d)) (length (cols other))
+  then Some (mkdf (cols d) (split 0 (collect d ++ collect other)))
+  else None.
+
+Definition unionByName (d other : df) : option df :=
+  if nodup_names (cols d) && nodup_names (cols other) && Nat.eqb (length (cols d)) (length (cols other))
+  then
+    match map_opt (reorder_row (cols other) (cols d)) (collect other) with
+    | Some rs => Some (mkdf (cols d) (split 0 (collect d ++ rs)))
+    | None => None
+    end
+  else None.
 
 (* ---------- operator chains *)
 Inductive op :=
